@@ -18,6 +18,36 @@ Pattern language: python source in which names starting with `__` are metavariab
 a repeated metavariable must match structurally equal text). Templates are Lean text with `{A}` replaced by the
 translation of what `__A` matched (`{A!s}` = the python source text, as a Lean string literal). A template starting
 with `←` makes an assignment monadic (`let x ← ...`).
+
+A parameter that the body assigns to is re-bound first (`let mut p := p`). The signature of a spec is free text: the
+result type may be any monad with `throw` of `PyErr` (`Except PyErr`, or `PyM σ` of Tie/ModelStateView.lean, where the
+state of the python object survives a raise).
+
+Spec options added for the UnitDefs group (all additive; absent = old behaviour):
+ * `var_types: {name: LeanType}` - the FIRST assignment of the python local `name` is emitted with a type ascription
+   (`let mut expr : UExpr := …`), so that a Lean coercion may apply to the right-hand side;
+ * `mutable_params: [name…]` - parameters that statement patterns re-assign (`let mut x := x` at the top);
+ * `before_while: k` - translate the statements of the function that PRECEDE its k-th `while` loop (the set-up of the
+   loop) and return the tuple of the names in `result`;
+ * `try: T = X  except E: T = Y` (one assignment to the same name in the body and in every handler) becomes ONE
+   `let T ← tryCatch X' (fun e__ => if e__.cls == "E" then pure Y else throw e__)`.
+
+`if c: T = X else: T = Y` where X or Y is bound to a monadic template becomes `let T ← (if c then X else Y)` (only the
+chosen branch is run); with pure branches it is `let T := (if c then X else Y)` as before.
+A parameter listed in the spec's `mutable` is re-declared `let mut p := p` at the top (it is re-assigned by the body or
+by a statement pattern).
+
+Additions (Loader package):
+ * `func` may name a function nested inside `for` / `if` blocks of its parent (`Parser._add_maths.symbol_generator`):
+   when a name is not found among the direct statements of the parent, the parent is searched in depth (source order).
+ * spec key `while_fuel` (a Lean term of type Nat): a `while TEST: BODY` statement of the translated function becomes
+   `s ← Py.whileUpTo FUEL (fun s => TEST) (fun s => do BODY; return s) s` where `s` is the tuple of the names assigned
+   in BODY (all must be declared before the loop): at most FUEL iterations of the loop (Prelude.lean). Without the
+   key a `while` statement is still a translation error (or use `while_body`).
+ * spec key `state` (list of parameter names): re-declared `let mut` at the start (like `loop_state`, but the function
+   keeps its own `return`s).
+ * spec key `returns` (a Lean term): emitted as the final `return` of a function that ends without one (a python
+   procedure whose effect is the threaded state).
 """
 import ast
 import copy
@@ -303,9 +333,39 @@ class Fn:
         if len(s.body) == 1 and len(s.orelse) == 1 and isinstance(s.body[0], ast.Assign) and \
                 isinstance(s.orelse[0], ast.Assign) and len(s.body[0].targets) == 1 and \
                 len(s.orelse[0].targets) == 1 and \
-                ast.dump(s.body[0].targets[0]) == ast.dump(s.orelse[0].targets[0]):
+                ast.dump(s.body[0].targets[0]) == ast.dump(s.orelse[0].targets[0]) and \
+                (isinstance(s.body[0].targets[0], ast.Name) or
+                 (isinstance(s.body[0].targets[0], (ast.Tuple, ast.List)) and
+                  all(isinstance(e, ast.Name) for e in s.body[0].targets[0].elts))):
+            # (an attribute / subscript target is a mutation: left to the statement patterns)
             return s.body[0].targets[0], s.body[0].value, s.orelse[0].value
         return None
+
+    def same_assign_try(self, s):
+        """`try: T = X  except E: T = Y …` with the same single name T everywhere  ->  (T, X, [(names of E, Y)…])"""
+        def one(body):
+            if len(body) == 1 and isinstance(body[0], ast.Assign) and len(body[0].targets) == 1 and \
+                    isinstance(body[0].targets[0], ast.Name):
+                return body[0].targets[0], body[0].value
+            return None
+        b = one(s.body)
+        if b is None:
+            return None
+        hs = []
+        for h in s.handlers:
+            hb = one(h.body)
+            if hb is None or hb[0].id != b[0].id or h.name is not None:
+                return None
+            if h.type is None:
+                names = None
+            elif isinstance(h.type, ast.Tuple):
+                names = [src(e).split('.')[-1] for e in h.type.elts]
+            else:
+                names = [src(h.type).split('.')[-1]]
+            if names == ['Exception']:
+                names = None
+            hs.append((names, hb[1]))
+        return b[0], b[1], hs
 
     def target_text(self, t):
         if isinstance(t, ast.Name):
@@ -329,7 +389,10 @@ class Fn:
         mut = 'mut ' if any(nm in self.mut for nm in names) else ''
         if mut and not all(nm in self.mut for nm in names):
             raise TranslationError('tuple assignment mixes mutable and immutable names: ' + ', '.join(names))
-        self.emit(ind, 'let %s%s %s %s' % (mut, self.target_text(target), '←' if monadic else ':=', rhs))
+        ann = ''
+        if isinstance(target, ast.Name) and target.id in self.spec.get('var_types', {}):
+            ann = ' : ' + self.spec['var_types'][target.id]
+        self.emit(ind, 'let %s%s%s %s %s' % (mut, self.target_text(target), ann, '←' if monadic else ':=', rhs))
         self.declared.update(names)
 
     def stmts(self, body, ind):
@@ -380,6 +443,12 @@ class Fn:
             same = self.same_assign_branches(s)
             if same is not None:
                 t, x, y = same
+                xa, ya = self.expr_or_monadic(x), self.expr_or_monadic(y)
+                if xa.startswith('←') or ya.startswith('←'):
+                    # a monadic leaf in a branch: only the chosen branch is run  ->  let T ← (if c then A else B)
+                    xa, ya = [z[1:].strip() if z.startswith('←') else 'pure ' + z for z in (xa, ya)]
+                    self.assign(ind, t, '← (if %s then (%s) else (%s))' % (self.cond(s.test), xa, ya))
+                    return
                 self.assign(ind, t, '(if %s then %s else %s)' % (self.cond(s.test), self.expr(x), self.expr(y)))
                 return
             self.emit(ind, 'if %s then' % self.cond(s.test))
@@ -431,6 +500,22 @@ class Fn:
         if isinstance(s, ast.Continue) and 'loop_state' in self.spec:
             self.emit(ind, 'return %s' % self.state_tuple())
             return
+        if isinstance(s, ast.Try) and not s.finalbody and not s.orelse and s.handlers and \
+                self.same_assign_try(s) is not None:
+            # try: T = X  except E: T = Y   ->   let T ← tryCatch X' (fun e__ => if e__.cls == "E" then pure Y else throw e__)
+            t, x, hs = self.same_assign_try(s)
+            xt = self.expr_or_monadic(x)
+            xt = xt[1:].strip() if xt.startswith('←') else 'pure %s' % xt
+            alt = 'throw e__'
+            for names, y in reversed(hs):
+                yt = self.expr_or_monadic(y)
+                yt = yt[1:].strip() if yt.startswith('←') else 'pure %s' % yt
+                test = 'true' if names is None else '(' + ' || '.join('e__.cls == %s' % lean_str(n) for n in names) + ')'
+                alt = 'if %s then %s else %s' % (test, yt, alt)
+            if '←' in xt or '←' in alt:
+                raise TranslationError('nested monadic leaf inside try/except assignment: ' + src(s).split('\n')[0])
+            self.assign(ind, t, '← tryCatch (%s) (fun e__ => %s)' % (xt, alt))
+            return
         if isinstance(s, ast.Try) and not s.finalbody and not s.orelse and s.handlers:
             # try: body  except E [as e]: handler   ->   try body catch e__ => if e__.cls == "E" then handler else throw e__
             self.emit(ind, 'try')
@@ -457,6 +542,22 @@ class Fn:
             self.emit(ind + 1, 'else')
             self.emit(ind + 2, 'throw e__')
             return
+        if isinstance(s, ast.While) and not s.orelse and 'while_fuel' in self.spec and 'while_body' not in self.spec:
+            names = list(self.assigned_names(s.body))
+            if not names or not all(nm in self.declared and nm in self.mut for nm in names):
+                raise TranslationError('while loop assigns names that are not declared before it: ' + ', '.join(names))
+            tup = mangle(names[0]) if len(names) == 1 else '(' + ', '.join(mangle(nm) for nm in names) + ')'
+            self.emit(ind, '%s ← Py.whileUpTo %s (fun %s => %s) (fun %s => do' % (tup, self.spec['while_fuel'], tup,
+                                                                                self.cond(s.test), tup))
+            for nm in names:
+                self.emit(ind + 1, 'let mut %s := %s' % (mangle(nm), mangle(nm)))
+            saved, depth = set(self.declared), self.for_depth
+            self.for_depth = 0
+            self.stmts(s.body, ind + 1)
+            self.for_depth = depth
+            self.declared = saved
+            self.emit(ind + 1, 'return %s) %s' % (tup, tup))
+            return
         raise TranslationError('no rule and no pattern for the statement `%s` (%s, line %s)'
                                % (src(s).split('\n')[0], type(s).__name__, getattr(s, 'lineno', '?')))
 
@@ -478,6 +579,10 @@ class Fn:
             loop = loops[self.spec['while_body']]
             body = list(loop.body)
             self.loop_test = loop.test
+        if 'before_while' in self.spec:
+            loops = [s for s in self.node.body if isinstance(s, ast.While)]
+            loop = loops[self.spec['before_while']]
+            body = body[:body.index(loop)]
         counts = self.assigned_names(body)
         for nm, depths in counts.items():
             if len(depths) > 1:
@@ -487,15 +592,31 @@ class Fn:
             params = [a.arg for a in self.node.args.args]
         self.declared.update(params)
         self.declared.update(self.spec.get('free', []))
-        for nm in self.spec.get('loop_state', []):
+        explicit = list(self.spec.get('loop_state', [])) + list(self.spec.get('mutable_params', []))
+        for nm in params:
+            # a parameter that the body assigns to (`units = self.units.get_unit(units)`), or that the spec lists as
+            # `mutable` (re-assigned by a statement pattern), is re-bound as a mutable local
+            if (nm in counts or nm in self.spec.get('mutable', [])) and nm not in explicit:
+                self.emit(1, 'let mut %s := %s' % (mangle(nm), mangle(nm)))
+                self.mut.add(nm)
+        for nm in explicit:
+            self.emit(1, 'let mut %s := %s' % (mangle(nm), mangle(nm)))
+            self.mut.add(nm)
+            self.declared.add(nm)
+        for nm in self.spec.get('state', []):
             self.emit(1, 'let mut %s := %s' % (mangle(nm), mangle(nm)))
             self.mut.add(nm)
             self.declared.add(nm)
         self.stmts(body, 1)
         if 'loop_state' in self.spec:
             self.emit(1, 'return %s' % self.state_tuple())
+        elif 'before_while' in self.spec:
+            res = [mangle(x) for x in self.spec['result']]
+            self.emit(1, 'return %s' % (res[0] if len(res) == 1 else '(' + ', '.join(res) + ')'))
         elif self.spec.get('falls_through_none', False):
             self.emit(1, 'return none')
+        elif 'returns' in self.spec:
+            self.emit(1, 'return %s' % self.spec['returns'])
         sig = self.spec['signature']
         head = 'def %s %s := do' % (self.spec['lean_name'], sig)
         out = [head] + self.lines
@@ -517,7 +638,15 @@ def find_function(tree, qual):
                 body = s.body
                 break
         else:
-            return None
+            # nested inside for / if / with blocks of the parent: search in depth, source order
+            if node is None:
+                return None
+            found = [x for x in ast.walk(node) if isinstance(x, (ast.FunctionDef, ast.ClassDef)) and x.name == p
+                     and x is not node]
+            if not found:
+                return None
+            node = min(found, key=lambda x: x.lineno)
+            body = node.body
     return node
 
 
